@@ -9,3 +9,6 @@ import Gmsm.Props.C10
 import Gmsm.Props.C03
 import Gmsm.Props.C03Alg
 import Gmsm.Proofs.ECFormulas
+import Gmsm.Props.C01
+import Gmsm.Props.C02
+import Gmsm.Props.C13
